@@ -9,7 +9,9 @@ import impl
 TABLES = ["Registries"]
 LAKE_TARGETS = ["Moclo.Props.C20", "Moclo.Tables.Registries"]
 THEOREMS = ["Moclo.C20." + t for t in ["lookup_absent", "setdefault_keys", "setdefault_lookup", "add_spec",
-                                       "combine_spec", "len_eq_keys", "iterated_key_found", "embedded_coherent", "resistance_from_table", "resistance_known"]]
+                                       "combine_spec", "len_eq_keys", "iterated_key_found", "embedded_coherent", "resistance_from_table", "resistance_known",
+                                       "dir_lookup_iff_iterated", "dir_item_carries_key", "dir_keys_case_independent",
+                                       "dir_subdirectories_ignored", "dir_keys_nodup"]]
 # reductions under which a failing case stays a case of this property (see shrink.py)
 SHRINK = {"lists": ["members", "real_members", "files", "dirs", "junk", "labels"], "keep_one": []}
 RULE = ("the five embedded registries, every item (exhaustive); in-memory directories of typed GenBank plasmids "
@@ -178,6 +180,26 @@ def _check_dir(ctx, case):
     ctx.note("dir-backend:" + case.get("backend", "memory"))
     check_mapping(ctx, "directory registry", reg, case, expect_keys=expect, absent_keys=absent)
     ctx.note("dir-files", len(case["files"]))
+    # the model of the directory logic (Dir.keys / Dir.lookup) against the real registry on the same listing
+    def nm(x):
+        return "n" + ",".join(str(ord(ch)) for ch in x)
+    listing = [(i.name, not i.is_dir) for i in reg.fs.scandir("/")]
+    ci = bool(reg.fs.getmeta().get("case_insensitive", True))
+    keys = list(reg)
+    probes = keys + [a for a in absent if isinstance(a, str)] + ["__absent__", "", "pYTK999x"]
+    found = ""
+    for k in probes:
+        try:
+            reg[k]
+            found += "1"
+        except KeyError:
+            found += "0"
+        except Exception:  # noqa
+            found += "x"
+    ctx.op(("RAW", "\t".join(["DIR", "1" if ci else "0", ";".join(nm(e) for e in exts) or ".",
+                               ";".join(nm(n) + ":" + ("1" if f else "0") for n, f in listing) or ".",
+                               ";".join(nm(k) for k in probes)])), case,
+           reply="\t".join(["ok", ";".join(nm(k) for k in keys) or ".", found]))
     ctx.case(case, nontrivial=len(list(reg)) >= 2 if expect is None else len(expect) >= 2)
 
 
